@@ -662,12 +662,16 @@ class TheoremStream(C08Stream):
         return k if k in getattr(self, "_hyp", ()) else None
 
 
+import c08s6      # noqa: E402  (needs the definitions above)
+
 PROPERTY = Property(
     pid="C08",
-    streams=[BodiesStream(), ExhaustiveStream(), TheoremStream(), AnnotateStream(), CliStream(), LongLineStream()],
+    streams=[BodiesStream(), ExhaustiveStream(), TheoremStream(), AnnotateStream(), CliStream(), LongLineStream()] + c08s6.STREAMS,
     assumptions=[
-        "line-level statements are about texts whose only line boundary after normalisation is \\n (Spec.NoExoticBreaks); with \\v \\f "
-        "\\x1c-\\x1e \\x85 U+2028 U+2029 inside a line the model (full str.splitlines) and the code are compared, the oracle is not applied",
+        "line-level theorems are about texts whose only line boundary after normalisation is \\n (Spec.NoExoticBreaks); with \\v \\f "
+        "\\x1c-\\x1e \\x85 U+2028 U+2029 inside the first line, the header block or the lines next to it the model (full str.splitlines) "
+        "and the code are compared and the oracle is not applied (stream `theorem`); anywhere else in the body they are ordinary characters "
+        "that must be kept where they are (streams `exotic`, `exotic-cli`: oracle applied in full)",
         "a file mixing CRLF / CR / LF has no single line-ending convention to keep: detect_line_endings prefers CRLF over CR over LF and every "
         "break is rewritten to that; the oracle then compares line contents only (documented boundary, model and code compared)",
         "a comment block that ends a file without final newline is replaced together with the end of the file: the file then ends with the new "
